@@ -145,7 +145,11 @@ func main() {
 			fmt.Fprintf(&b, "case %d\nnewlb %s %d\n", c, kind, n)
 			hist[kind]++
 			if kind == "rr" && r.Intn(3) == 0 { // near the wrap-around of the uint64 counter
-				fmt.Fprintf(&b, "setrr %d\n", ^uint64(0)-uint64(r.Intn(5)))
+				if r.Intn(2) == 0 {
+					fmt.Fprintf(&b, "setrr %d\n", ^uint64(0)-uint64(r.Intn(5)))
+				} else { // a long-running server: the counter has passed 2^32 - nothing may change there
+					fmt.Fprintf(&b, "setrr %d\n", uint64(1)<<32-uint64(1+r.Intn(5)))
+				}
 			}
 			counts := make([]int, n)
 			var addrs []string
